@@ -123,11 +123,17 @@ func (s *tunnelServer) serve(tunnelMetadata metadata.MD) error {
 func (s *tunnelServer) createStream(ctx context.Context, streamID int64, frame *tunnelpb.NewStream) (bool, error) {
 	verifYield("server.create.begin")
 	if s.isClosing() {
+		if err := s.recordRefusedStream(streamID); err != nil {
+			return false, err
+		}
 		return true, status.Errorf(codes.Unavailable, "server is shutting down")
 	}
 
 	if frame.ProtocolRevision != tunnelpb.ProtocolRevision_REVISION_ZERO &&
 		frame.ProtocolRevision != tunnelpb.ProtocolRevision_REVISION_ONE {
+		if err := s.recordRefusedStream(streamID); err != nil {
+			return false, err
+		}
 		return true, status.Errorf(codes.Unavailable, "server does not support protocol revision %d", frame.ProtocolRevision)
 	}
 	noFlowControl := frame.ProtocolRevision == tunnelpb.ProtocolRevision_REVISION_ZERO
@@ -238,6 +244,24 @@ func (s *tunnelServer) createStream(ctx context.Context, streamID int64, frame *
 	str.ctx = grpc.NewContextWithServerTransportStream(str.ctx, (*tunnelServerTransportStream)(str))
 	go str.serveStream(md, svc)
 	return true, nil
+}
+
+// recordRefusedStream validates and records the ID of a stream that is being
+// refused before it is created. The ID must be recorded as seen so that later
+// frames the client already sent for the refused stream are ignored instead
+// of being treated as frames for a stream that was never created (which would
+// abort the whole tunnel).
+func (s *tunnelServer) recordRefusedStream(streamID int64) error {
+	s.mu.Lock()
+	defer s.mu.Unlock()
+	if _, ok := s.streams[streamID]; ok {
+		return fmt.Errorf("cannot create stream ID %d: already exists", streamID)
+	}
+	if streamID <= s.lastSeen {
+		return fmt.Errorf("cannot create stream ID %d: that ID has already been used", streamID)
+	}
+	s.lastSeen = streamID
+	return nil
 }
 
 func timeoutFromHeaders(headers metadata.MD) (time.Duration, bool) {
